@@ -201,3 +201,70 @@ package compose
 //@     invariant[sound] forall(i int :: 0 <= i && i < len(ret) ==> inList(ret[i], keys) && taskKeyIn(ret[i], tasks, $i_1 + 1))
 //@     invariant[complete] forall(j int :: 0 <= j && j < $i_1 && inList(tasks[j].nodeKey, keys) ==> inList(tasks[j].nodeKey, ret))
 //@     invariant[cur] (exists(m int :: 0 <= m && m < $i && keys[m] == t.nodeKey)) ==> inList(t.nodeKey, ret)
+
+// ---------------------------------------------------------------------------------------------------
+// error.go, interrupt.go — error identity and wrapping (C13, C06)
+// ---------------------------------------------------------------------------------------------------
+
+//@ axiom[sentinels] plainError(InterruptAndRerun) && plainError(ErrExceedMaxSteps) && InterruptAndRerun != ErrExceedMaxSteps
+
+//@ func newGraphRunError
+//@   props C13
+//@   requires err != nil
+//@   ensures[type] result != nil && is(result, "*internalError") && fresh(unbox(result, "*internalError"))
+//@   ensures[unwrap] forall(t error :: errorsIs(err, t) ==> errorsIs(result, t))
+//@   ensures[orig] unbox(result, "*internalError").origError == err && len(unbox(result, "*internalError").nodePath.path) == 0
+
+//@ func newStreamWrapperError
+//@   props C13
+//@   requires err != nil
+//@   ensures[type] result != nil && is(result, "*internalError")
+//@   ensures[unwrap] forall(t error :: errorsIs(err, t) ==> errorsIs(result, t))
+
+//@ func isSubGraphInterrupt
+//@   props C06
+//@   ensures[nil] err == nil ==> result == nil
+//@   ensures[direct] is(err, "*subGraphInterruptError") ==> result == unbox(err, "*subGraphInterruptError")
+//@   ensures[plain] plainError(err) ==> result == nil
+//@   ensures[wrapped_plain] is(err, "*internalError") && unbox(err, "*internalError") != nil && plainError(unbox(err, "*internalError").origError) ==> result == nil
+
+//@ func ExtractInterruptInfo
+//@   props C06
+//@   ensures[nil] err == nil ==> !existed
+//@   ensures[direct] is(err, "*interruptError") && unbox(err, "*interruptError") != nil ==> existed && info == unbox(err, "*interruptError").Info
+//@   ensures[plain] err != nil && plainError(err) ==> !existed
+//@   ensures[wrapped_plain] is(err, "*internalError") && unbox(err, "*internalError") != nil && plainError(unbox(err, "*internalError").origError) ==> !existed
+
+//@ func wrapGraphNodeError
+//@   props C13 C06
+//@   requires err != nil
+//@   ensures[interrupt_unchanged] is(err, "*interruptError") && unbox(err, "*interruptError") != nil ==> result == err
+//@   ensures[subgraph_interrupt_unchanged] is(err, "*subGraphInterruptError") && unbox(err, "*subGraphInterruptError") != nil ==> result == err
+//@   ensures[nonnil] result != nil
+//@   ensures[unwrap_direct] plainError(err) || is(err, "*internalError") ==> forall(t error :: errorsIs(err, t) ==> errorsIs(result, t))
+//@   ensures[unwrap] forall(t error :: errorsIs(err, t) ==> errorsIs(result, t))
+//@   ensures[path_plain] plainError(err) && err != InterruptAndRerun ==> is(result, "*internalError") && len(unbox(result, "*internalError").nodePath.path) == 1 && unbox(result, "*internalError").nodePath.path[0] == nodeKey && unbox(result, "*internalError").origError == err
+//@   ensures[path_prepend] is(err, "*internalError") && unbox(err, "*internalError") != nil && plainError(unbox(err, "*internalError").origError) && unbox(err, "*internalError").origError != InterruptAndRerun ==> result == err && len(unbox(err, "*internalError").nodePath.path) == old(len(unbox(err, "*internalError").nodePath.path)) + 1 && unbox(err, "*internalError").nodePath.path[0] == nodeKey
+//@   modifies region("F|compose.internalError|nodePath")
+
+//@ func isInterruptError
+//@   props C06 C13
+//@   ensures[interrupt] is(err, "*interruptError") && unbox(err, "*interruptError") != nil ==> result
+//@   ensures[sub] is(err, "*subGraphInterruptError") && unbox(err, "*subGraphInterruptError") != nil ==> result
+//@   ensures[plain] plainError(err) ==> result == (err == InterruptAndRerun)
+//@   ensures[nil] err == nil ==> !result
+//@   ensures[wrapped_plain] is(err, "*internalError") && unbox(err, "*internalError") != nil && plainError(unbox(err, "*internalError").origError) ==> result == (unbox(err, "*internalError").origError == InterruptAndRerun)
+
+//@ func wrapStreamWrapperError
+//@   props C13
+//@   requires err != nil
+//@   ensures[interrupt_unchanged] is(err, "*interruptError") && unbox(err, "*interruptError") != nil ==> result == err
+//@   ensures[nonnil] result != nil
+//@   ensures[unwrap] forall(t error :: errorsIs(err, t) ==> errorsIs(result, t))
+//@   modifies region("F|compose.internalError|streamWrapperPath")
+
+//@ func (*internalError).Error
+//@   props C13
+//@   requires i != nil && i.origError != nil
+//@   loop 1:
+//@     invariant[idx] 0 <= j
